@@ -61,6 +61,8 @@ pub enum Via {
     ToLeanStr,
     ToLeanCow,
     ToLeanBox,
+    /// `String::try_to_lean_string` (the fallible form of the &String arm)
+    TryToLeanString,
 }
 
 #[derive(Clone, Copy, Debug, PartialEq, Eq, Hash, Serialize, Deserialize)]
